@@ -16,31 +16,31 @@ TEXTS = {
     "C01": {
         "technique": "model-based stateful property testing (rapid state machine vs. map model) with derived absent-key sweeps",
         "design_ref": "DESIGN.md §4 C01",
-        "level_text": "Generated histories over all six tree kinds and every key type are applied to the real tree and to a map model; every Insert/Delete/Search outcome and periodic full sweeps (all stored keys found with their value, derived absent neighbours - truncations, extensions, one-byte changes - not found, no call panics) are compared. Focused templates force the hard classes (probes shorter than / diverging inside a >10-byte path, every grow/shrink threshold). Exploration is the right level: the property quantifies over unbounded histories and an executable map oracle is exact.",
+        "level_text": "Generated histories over all six tree kinds and every key type are applied to the real tree and to a map model; every Insert/Delete/Search outcome and periodic full sweeps (all stored keys found with their value, derived absent neighbours - truncations, extensions, one-byte changes - not found, no call panics) are compared. Focused templates force the hard classes (probes shorter than / diverging inside a >10-byte path, every grow/shrink threshold, wide fan-out also in collation trees); a bounded-exhaustive closure visits every reachable tree over ten small key universes and probes every universe key in every state; a GOARCH=386 run covers the portable code. Exploration is the right level: the property quantifies over unbounded histories and an executable map oracle is exact.",
         "level_note": _TRUST + _DOMAIN,
     },
     "C02": {
         "technique": "model-based stateful property testing; All()/Backward() compared element-wise with an independently sorted model",
         "design_ref": "DESIGN.md §4 C02",
-        "level_text": "The same history generator (with deletes and bulk grow/shrink) runs on every kind; after every 3rd op and at the end All() must equal the model sorted by a comparator that never calls a go-art encoder (key form and value, element by element) and Backward() its reverse.",
+        "level_text": "The same history generator (with deletes and bulk grow/shrink) runs on every kind; after every 3rd op, at every fan-out peak/trough and at the end (and in every state of the bounded-exhaustive closures) All() must equal the model sorted by a comparator that never calls a go-art encoder (key form and value, element by element) and Backward() its reverse.",
         "level_note": _TRUST + "Collation order = CompareString of a separate x/text collator instance; pairs on which x/text contradicts itself (Compare vs Key) are excluded and counted. " + _DOMAIN,
     },
     "C03": {
         "technique": "model-based stateful property testing; Range results vs. filtered sorted model, bound generators aimed at pruning logic",
         "design_ref": "DESIGN.md §4 C03",
-        "level_text": "Histories on byte-string, integer, float and compound trees with Range(a,b) for bounds that are stored, neighbouring, below-min/above-max, equal, reversed, empty (byte strings) or share a long prefix behind a decoy subtree; the result must equal the model filtered by min(a,b) <= k <= max(a,b) in order with values. The property's carve-outs are skipped and counted.",
+        "level_text": "Histories on byte-string, integer, float and compound trees with Range(a,b) for bounds that are stored, neighbouring, below-min/above-max, equal, reversed, empty (byte strings) or share a long prefix behind a decoy subtree; the result must equal the model filtered by min(a,b) <= k <= max(a,b) in order with values. Derived audits run seven ranges built from the stored keys at every audit point, every returned sequence is consumed twice, and the closures try every ordered pair of universe keys as bounds in every reachable state. The property's carve-outs are skipped and counted.",
         "level_note": _TRUST + _DOMAIN,
     },
     "C04": {
         "technique": "model-based stateful property testing; Prefix results vs. bytes.HasPrefix filter of the sorted model, sibling-splice prefix generator",
         "design_ref": "DESIGN.md §4 C04",
-        "level_text": "Histories on byte-string trees and on collation trees (6 collators, contraction-free text) with Prefix(p) for p empty, stored, cut inside/at/after a compressed path, extended, spliced from a sibling subtree, longer than every key or unmatched; the result must equal the model filtered by HasPrefix on the original bytes, in tree order, and never panic.",
+        "level_text": "Histories on byte-string trees and on collation trees (6 collators, contraction-free text) with Prefix(p) for p empty, stored, cut inside/at/after a compressed path, extended, spliced from a sibling subtree, longer than every key or unmatched; the result must equal the model filtered by HasPrefix on the original bytes, in tree order, and never panic. Derived audits query prefixes of stored keys cut at 1, len/2, 10, 11, len-1, len; the closures try every prefix of every universe key in every reachable state.",
         "level_note": _TRUST + "Collation precondition (primary weights of p+s start with those of p) is checked per query with an independent primary-strength collator; violating queries are carved out and counted. " + _DOMAIN,
     },
     "C05": {
         "technique": "model-based stateful property testing; extremes and TopK/BottomK vs. sorted model incl. empty/singleton/emptied trees",
         "design_ref": "DESIGN.md §4 C05",
-        "level_text": "Histories over all kinds with Minimum/Maximum and TopK/BottomK(n) for n in {0,1,size-1,size,size+1,size+17,2^32,random}, on never-filled, singleton, emptied and large-fan-out trees, compared with the first/last elements of the sorted model.",
+        "level_text": "Histories over all kinds with Minimum/Maximum and TopK/BottomK(n) for n in {0,1,size-1,size,size+1,size+17,2^32,random}, (plus 2^31, 2^63 and MaxUint) on never-filled, singleton, emptied and large-fan-out trees (audited right after a node reaches 256 children), compared with the first/last elements of the sorted model.",
         "level_note": _TRUST + _DOMAIN,
     },
     "C06": {
@@ -84,43 +84,43 @@ TEXTS = {
     "C12": {
         "technique": "stateful property testing over interleaved multi-tree histories with per-tree models and fresh-twin differential",
         "design_ref": "DESIGN.md §4 C12",
-        "level_text": "2..6 trees of mixed kinds on one goroutine with heavy fan-out churn so that nodes of every class move between trees through the pool; each tree is compared with its own model (results, scans, structure) and a tree emptied by deletes is shadowed by a freshly constructed tree that must behave and look identical from then on.",
+        "level_text": "2..6 trees of mixed kinds on one goroutine with heavy fan-out churn so that nodes of every class move between trees through the pool; each tree is compared with its own model (results, scans, structure) with the whole query repertoire (extremes, TopK/BottomK, Range, Prefix, scans), and a tree emptied by deletes is shadowed by a freshly constructed tree that must give identical answers (incl. Minimum/Maximum) and the same class-less shape from then on.",
         "level_note": _TRUST + "Pool traffic between trees is measured (class census per op), not assumed. " + _DOMAIN,
     },
     "C13": {
         "technique": "stateful property testing with caller-owned arena slices (spare capacity, buffer reuse) and byte-exact arena comparison",
         "design_ref": "DESIGN.md §4 C13",
-        "level_text": "Every []byte key argument is a sub-slice (offset 0..8, spare capacity 0..3 holding live pattern bytes) of one arena reused for all calls; the arena must be byte-identical after each Insert/Search/Delete/Prefix/Range, is then overwritten, and the tree must still hold exactly the model.",
+        "level_text": "Every []byte key argument is a sub-slice (offset 0..8, spare capacity 0..3 holding live pattern bytes) of one arena reused for all calls; the arena must be byte-identical after each Insert/Search/Delete/Prefix/Range, is then overwritten, and the tree must still hold exactly the model. What surrounds the key in the buffer is drawn (live pattern, zeros, a zero right behind the key, 0xff).",
         "level_note": _TRUST + _DOMAIN,
     },
     "C14": {
         "technique": "stateful property testing; sequences driven directly with a yield function that stops at a generated position, then re-iterated",
         "design_ref": "DESIGN.md §4 C14",
-        "level_text": "For All, Backward, Prefix, Range, TopK, BottomK on generated trees a sequence value is abandoned after a drawn number of elements (late callbacks are counted, not crashed on) and then iterated completely 1..3 times; every pass must equal a complete pass over a freshly obtained sequence.",
+        "level_text": "For All, Backward, Prefix, Range, TopK, BottomK on generated trees a sequence value is abandoned after a drawn number of elements (late callbacks are counted, not crashed on) and then iterated completely 1..3 times; every pass must equal a complete pass over a freshly obtained sequence; in half of the cases other read-only calls run between the passes. The closures try every stop position for every method in every reachable state.",
         "level_note": _TRUST + _DOMAIN,
     },
     "C15": {
         "technique": "stateful property testing with raw-state bracketing: byte-exact serialisation of the whole node graph before/after each non-mutating call",
         "design_ref": "DESIGN.md §4 C15",
-        "level_text": "Every read-only call, failed Delete and overwriting Insert of generated histories is bracketed by two raw dumps (all node fields incl. dead lanes, addresses, leaf bytes, values, root, size) that must be identical (overwrite: identical but one leaf value).",
+        "level_text": "Every read-only call, failed Delete and overwriting Insert of generated histories is bracketed by two raw dumps (all node fields incl. dead lanes, addresses, leaf bytes, values, root, size) that must be identical (overwrite: identical but one leaf value); the raw bytes of the tree object itself are part of the dump, and at the end a query-free replica (mutations only) must look and answer exactly like the tree on which queries were interleaved.",
         "level_note": _TRUST + "The collation codec's scratch buffer is not part of the node graph (its growth is C17's subject). " + _DOMAIN,
     },
     "C16": {
         "technique": "concurrent re-execution of rapid-generated per-goroutine histories under the Go race detector, results vs. sequential reference",
         "design_ref": "DESIGN.md §4 C16",
-        "level_text": "Under -race, goroutines with private trees re-execute generated histories simultaneously (pool shared), and many goroutines query one quiescent tree; GOMAXPROCS and yield points are drawn per case; any race report or deviation from the sequential results is a violation.",
+        "level_text": "Under -race, goroutines with private trees re-execute generated histories simultaneously (pool shared), and many goroutines query one quiescent tree; GOMAXPROCS and yield points are drawn per case; every reader also runs a fixed battery of special reads so that each query path is executed by all goroutines at once; any race report or deviation from the sequential results is a violation.",
         "level_note": "Schedules are sampled, not enumerated; a race whose two accesses never both execute in a sampled run is missed. The race detector reports no false positives.",
     },
     "C17": {
         "technique": "generated long-running scenarios with live-heap measurement at geometric checkpoints (N,2N,4N,8N operations)",
         "design_ref": "DESIGN.md §4 C17",
-        "level_text": "rapid draws kind, key set and operation mix; 8N operations run (N=1e5 quick, 1e6 thorough) and live heap after forced collections is sampled at 0,N,2N,4N,8N: growth above 1 MiB that shows in at least two intervals is a leak; after deleting every key the tree may retain at most 256 KiB.",
+        "level_text": "rapid draws kind, key set and operation mix; 8N operations run (N=1e5 quick, 1e6 thorough) and live heap after forced collections is sampled at 0,N,2N,4N,8N: growth above 1 MiB that shows in at least two intervals is a leak; mixes: lookups only, sequences only, all reads, overwrites, churn of a fixed key set, sliding window of ever fresh keys, waves, mixed; after deleting every key, and again after a 30 000-key fill-and-drain, the tree may retain at most 256 KiB.",
         "level_note": "A measurement against thresholds, not a bound proof; leaks below ~0.7 B/op (quick) / ~0.15 B/op (thorough) escape. Over-threshold emptied-tree measurements are re-taken up to three times.",
     },
     "C18": {
         "technique": "stateful property testing under GC pressure (GC percent 1, forced collections, finalizer oracle) with a checkptr-instrumented build",
         "design_ref": "DESIGN.md §4 C18",
-        "level_text": "Histories on all kinds x 7 value types run with GC percent 1 and forced collections at drawn points in a -d=checkptr binary; stored keys/values are re-verified against content recomputed from ids and no finalizer of a stored pointer value may have run.",
+        "level_text": "Histories on all kinds x 7 value types run with GC percent 1 and forced collections at drawn points in a -d=checkptr binary; stored keys/values are re-verified against content recomputed from ids and no finalizer of a stored pointer value may have run; value objects are also re-filed under other keys (moved, not rebuilt), and a second scenario runs moves/overwrites/deletes on trees of 30 000-100 000 entries so that operations overlap long mark phases.",
         "level_note": _TRUST + "Collector timing is forced, not enumerated. The model keeps ids only. " + _DOMAIN,
     },
     "C19": {
